@@ -4,27 +4,34 @@ from translators import tr_c03
 
 PID = "C03"
 CLAIM = True
-MANIFEST_TEXT = ("Lean 4 theorems for ALL operation histories and all set sizes (0 and 1 included) about an executable model of "
+MANIFEST_TEXT = ("Lean 4 theorems (62) for ALL operation histories and all set sizes (0 and 1 included) about an executable model of "
                  "ParallelIndexSet/GlobalLookupIndexSet that transcribes the GROUND/RESIZE state machine with its checks, endResize "
                  "(sort + the three-way merge dropping DELETED entries), the int binary search of exists/at/operator[] (with fuel), "
                  "renumberLocal, seqNo and the reverse table: ground contents = pairs added and not deleted, strictly ascending "
                  "iteration, exists/at/operator[] exact (also stated against the history's specification), search terminates and "
-                 "stays inside 32-bit int for up to 2^30 entries, seqNo counts completed resizes, renumbering = position, reverse "
-                 "lookup inverts (established by renumberLocal), wrong-state calls rejected without effect.  A translator re-reads "
-                 "indexset.hh/plocalindex.hh on every run (seven state checks, scalar effects, sort/merge comparison, DELETED "
-                 "tests, the skeletons of all five copies of the binary search) and 13 theorems prove the model equal to these "
-                 "regenerated pieces.  Each run executes the real class (chunk sizes 0,1,2,3,4,5,8,100 with ParallelLocalIndex/long, "
-                 "1,15,25 with LocalIndex/int, checks enabled) and the model on thousands of random histories and compares every "
-                 "observation; a std::multimap oracle replaying the history decides the property itself.")
+                 "stays inside 32-bit int for up to 2^30 entries, seqNo counts completed resizes, renumbering = position (no uint32 "
+                 "wrap up to 2^32 entries), reverse lookup inverts (established by renumberLocal), wrong-state calls rejected without "
+                 "effect; multi-object histories (copy construction, copy assignment, operator==) reduce to single-object ones, a copy "
+                 "is independent of its original.  A translator re-reads indexset.hh/plocalindex.hh/localindex.hh on every run: the "
+                 "constructor, seven state checks, scalar effects, the statement order of endResize, sort/merge comparison (both "
+                 "comparators), merge() as a whole program (first branch, guards/decision trees/statements of its three loops), the "
+                 "skeletons of all five copies of the binary search, the renumberLocal loop, both GlobalLookupIndexSet constructors, "
+                 "all constructors/operator=/setState of ParallelLocalIndex and LocalIndex; 17 theorems prove the model equal to the "
+                 "interpretation of these regenerated pieces.  Each run executes the real class (chunk sizes 0,1,2,3,4,5,8,100 with "
+                 "ParallelLocalIndex/long, 1,15,25 with LocalIndex/int, checks enabled) and the model on thousands of random histories "
+                 "(with copies of the set taken, observed and assigned back) and compares every observation; a std::multimap oracle "
+                 "replaying the history decides the property itself.")
 MANIFEST_NOTE = ("Trusted: Lean kernel (+propext/Classical.choice/Quot.sound), the hand-written model's fidelity for the parts not "
-                 "regenerated (control flow of merge(), renumberLocal, GlobalLookupIndexSet constructors: differential execution "
-                 "only), tools/translators/tr_c03.py (pieces it cannot parse fall back to the canonical form and are listed in "
-                 "Gen.unparsed), the harness/driver parsing and printing, g++/ASan/UBSan. The chunked ArrayList is abstracted to a "
-                 "sequence (property C11); std::sort is modelled by insertion sort (theorem sort_unique: the sorted list is unique "
-                 "for distinct keys); int overflow of seqNo_/uint32 wrap of renumberLocal are not modelled; sets of more than 2^30 "
-                 "entries are outside search_int32_safe.")
-TECHNIQUE = ("Lean 4 proof over a transcribed state-machine/merge/binary-search model + source translator with matches_source "
-             "theorems + differential correspondence with std::multimap oracle")
+                 "regenerated (the two branch conditions of merge(), one-line getters, IndexPair constructors, push_back in add: "
+                 "differential execution only), tools/translators/tr_c03.py and the meaning given to its output in "
+                 "Model/C03Src.lean (round-two pieces it cannot parse fall back to the canonical form and are listed in Gen.unparsed; "
+                 "round-four pieces are emitted as unknown and break their theorem), the harness/driver parsing and printing, "
+                 "g++/ASan/UBSan. The chunked ArrayList is abstracted to a sequence (property C11; its copy/assignment is exercised "
+                 "through copies of the index set); std::sort is modelled by insertion sort (theorem sort_unique: the sorted list is "
+                 "unique for distinct keys); int overflow of seqNo_ is not modelled; sets of more than 2^30 entries are outside "
+                 "search_int32_safe.")
+TECHNIQUE = ("Lean 4 proof over a transcribed state-machine/merge/binary-search model + source translator (expressions, statement "
+             "lists, loop programs) with matches_source theorems + differential correspondence with std::multimap oracle")
 TRANSLATORS = [tr_c03.translate]
 HARNESS = dict(
     sources=["cxx_c03.cc"],
@@ -40,7 +47,9 @@ RULE = ("case = one whole history `<CFG> : op;op;...`; CFG = chunk size N in {0,
         "long/int), adds and deletions interleaved in random order, phases adding 0/1/N+-1 entries, deleting none/all/all-but-one, "
         "entries marked twice, re-adding deleted globals, 15% histories with equal globals under different attributes, one third "
         "with wrong-state calls; lookups (all five overloads, writes through operator[] and setLocal, reverse tables also inside a "
-        "resize phase) aim at stored keys, the first/last key and their neighbours. Plus a rotating slice (thorough: all 15552) of "
+        "resize phase) aim at stored keys, the first/last key and their neighbours; copies of the set (`c`: in GROUND state, right "
+        "after beginResize, right before endResize) are viewed later (`v`: contents, seqNo, state, operator==) and assigned back "
+        "(`y`, then the copy's phase is closed); 1/10 of the adds use the two-argument ParallelLocalIndex constructor. Plus a rotating slice (thorough: all 15552) of "
         "the exhaustive family of two-phase histories over 4 globals. distinct = distinct history lines; non-trivial = at least two "
         "ops and inside the property's quantifier")
 ASSUMPTIONS = [
@@ -51,6 +60,10 @@ ASSUMPTIONS = [
     "the translator compares the sort/merge comparison with its canonical form only on assignments inside the quantifier "
     "(strict comparator, no two equal keys)",
     "fixes/C03_lookup_single_entry.patch is applied to the tree under test",
+    "a copy of an index set is modelled as the value itself (Model/C03World.lean); that the member-wise copy of the two ArrayLists is "
+    "deep is checked by the differential run (views of the copy after the original changed), not proved",
+    "the interpreter of the regenerated merge() program treats eraseToHere() at the iterator as dropping the first remaining entry "
+    "and dereferencing an end iterator as undefined (none)",
 ]
 TRUSTED = ["g++/libstdc++, ASan/UBSan", "harness/cxx_c03.cc (incl. the std::multimap oracle) + Driver/C03.lean parsing/printing",
            "tools/translators/tr_c03.py + Model/C03Expr.lean/C03Src.lean (meaning of the regenerated pieces)"]
@@ -65,17 +78,17 @@ def batches(tier, seed):
     if tier == "quick":
         n, parts = 6000, 4
         res = [dict(args=["--seed", _seed(seed, i), "--cases", str(n // parts), "--tier", tier], tag="g%d" % i,
-                    timeout=60) for i in range(parts)]
+                    timeout=600) for i in range(parts)]
         # a slice of the exhaustive family (<= 2 rounds over 4 globals), rotating with the seed
         res.append(dict(args=["--seed", "1", "--cases", "1300", "--enum", "1", "--offset", str((seed * 1300) % 15552)],
-                        tag="enum", timeout=60))
+                        tag="enum", timeout=600))
         return res
     n, parts = 240000, 12
     res = [dict(args=["--seed", _seed(seed, 20 + i), "--cases", str(n // parts), "--tier", tier], tag="g%d" % i,
-                timeout=900) for i in range(parts)]
-    res.append(dict(args=["--seed", "1", "--cases", "15552", "--enum", "1"], tag="enum", timeout=600))
+                timeout=3600) for i in range(parts)]
+    res.append(dict(args=["--seed", "1", "--cases", "15552", "--enum", "1"], tag="enum", timeout=3600))
     return res
 
 
 def search_batches(seed):
-    return [dict(args=["--seed", _seed(seed, 40 + i), "--cases", "30000"], timeout=300) for i in range(3)]
+    return [dict(args=["--seed", _seed(seed, 40 + i), "--cases", "30000"], timeout=1800) for i in range(3)]
